@@ -57,7 +57,13 @@ func desugar(s string) string {
 			}
 			vars := strings.TrimSpace(s[len(q):j])
 			body := desugar(s[j+2:])
-			return fmt.Sprintf("__%s(func(%s int) bool { return %s })", q, vars, body)
+			typ := "int"
+			if fs := strings.Fields(vars); len(fs) >= 2 && !strings.HasSuffix(fs[len(fs)-2], ",") {
+				// typed binders: forall a, b string :: P
+				typ = fs[len(fs)-1]
+				vars = strings.TrimSpace(strings.TrimSuffix(vars, typ))
+			}
+			return fmt.Sprintf("__%s(func(%s %s) bool { return %s })", q, vars, typ, body)
 		}
 	}
 	if i := topLevelIndex(s, "==>"); i >= 0 {
@@ -731,11 +737,15 @@ func (e *Env) callExpr(ex *ast.CallExpr, hint types.Type) Val {
 			var binders []string
 			var ranges []string
 			for _, f := range fl.Type.Params.List {
+				bt := types.Type(intT)
+				if tid, ok := f.Type.(*ast.Ident); !ok || tid.Name != "int" {
+					bt = e.typeOf(f.Type)
+				}
 				for _, n := range f.Names {
 					bn := c.fresh("q_" + n.Name)
-					binders = append(binders, fmt.Sprintf("(%s %s)", bn, c.sortOf(intT)))
-					env = env.with(n.Name, Val{T: intT, S: bn})
-					ranges = append(ranges, c.wf(intT, bn))
+					binders = append(binders, fmt.Sprintf("(%s %s)", bn, c.sortOf(bt)))
+					env = env.with(n.Name, Val{T: bt, S: bn})
+					ranges = append(ranges, c.wfAt(bt, bn, c.alloc(e.st)))
 				}
 			}
 			c.inQuant++
